@@ -164,7 +164,11 @@ func (cx *Connection) prefetch() (err error) {
 
 		cx.bytesRead += uint64(n)
 
-		if err != nil {
+		// a Read may return the last bytes together with an error (io.Reader: process
+		// the n > 0 bytes before considering the error; crypto/tls returns the final
+		// data with io.EOF when close_notify follows it): let the matchers see those
+		// bytes first, the error comes back on the next read
+		if err != nil && n == 0 {
 			return err
 		}
 
